@@ -1,14 +1,31 @@
-(* C20: DataChannel.readyState transitions (datachannel.go, peerconnection.go)
-   as an interleaving model.
-   Threads: 0 handleOpen; 1 PeerConnection.Close (step 5 stores closed on every
-   channel, then the transports stop: the read will fail); 2 the remote side
-   closes the channel (stream reset: the read will return EOF); 3 readLoop's
-   exit path; 4+j the j-th DataChannel.Close call.
+(* C20: DataChannel.readyState transitions and the OnOpen / OnClose events
+   (datachannel.go, peerconnection.go) as an interleaving model.
+
+   Threads (schedule alphabet [tid]):
+     TOpen        handleOpen (negotiated / remote / detached channel: onOpen is
+                  called directly)
+     TPc          PeerConnection.Close: step 5 stores closed on every channel
+                  still in sctpTransport.dataChannels, then the transports stop
+                  (the read will fail)
+     TRem         the remote side resets the stream / goes away (the read fails)
+     TRl          readLoop's exit path
+     TClose j     the j-th DataChannel.Close or GracefulClose call
+     TRegO i      the i-th concurrent OnOpen(f) registration (handler id i+1)
+     TRegC i      the i-th concurrent OnClose(f) registration (handler id i+1)
+     TDoO i       the i-th not yet run "go once.Do(handler)" goroutine of OnOpen
+     TDoC i       the same for OnClose
+     TDetach      a Detach() call            (one block, always enabled)
+     TSend        a Send / SendText call     (one block, always enabled)
    Atomic blocks are the code between the yield points dc.open.set-open,
-   dc.close.check, dc.close.set-closing, dc.rl.set-closed.
-   The OnOpen / OnClose handlers are registered before the threads start; a
-   "go once.Do(handler)" is modelled at the place that spawns it (sync.Once
-   makes the number of invocations independent of when the goroutine runs).
+   dc.close.check, dc.close.set-closing, dc.rl.set-closed, dcreg.open,
+   dcreg.close, dcfire.open, dcfire.close.
+
+   [variant]: the code before / after the two repairs
+     fix_state  "fix: DataChannel readyState only moves forward ..."
+                (setReadyState drops a store that would move the state back;
+                 handleOpen stores closed on both closed-while-opening paths)
+     fix_once   "fix: one sync.Once per OnOpen/OnClose/OnDial registration"
+   [post] is the code as it is now; [pre] is kept for the recorded witnesses.
    No proofs here. *)
 From Coq Require Import List Arith Bool.
 Import ListNotations.
@@ -19,39 +36,83 @@ Definition rank (r : rstate) : nat :=
   match r with Connecting => 0 | Open => 1 | Closing => 2 | Closed => 3 end.
 Definition rstate_eqb (a b : rstate) : bool := Nat.eqb (rank a) (rank b).
 
-(* position of a Close call *)
+Record variant := { fix_state : bool; fix_once : bool }.
+Definition post : variant := {| fix_state := true; fix_once := true |}.
+Definition pre : variant := {| fix_state := false; fix_once := false |}.
+
+(* position of handleOpen *)
+Inductive opc :=
+| OStart
+| OSetOpen                       (* d.dataChannel set; before setReadyState(open) *)
+| OFireOpen (h : option nat)     (* onOpen read the handler; before "go once.Do" *)
+| OFireClose (h : option nat)    (* onClose read the handler (closed while opening) *)
+| ODone.
+
+(* position of a Close / GracefulClose call *)
 Inductive cpc :=
 | CStart
-| CCheck (have : bool)   (* isGracefulClosed set, haveSctpTransport read; before the closed-check *)
-| CSet (have : bool)     (* check passed; before setReadyState(closing) *)
+| CCheck (have wait : bool)  (* isGracefulClosed set; before the closed-check *)
+| CSet (have wait : bool)    (* check passed; before setReadyState(closing) *)
+| CWait                      (* GracefulClose: deferred <-readLoopActive *)
 | CDone.
 
-Inductive opc := OStart | OSetOpen | ODone.
+(* position of the read loop *)
+Inductive rlpc :=
+| RRun                           (* in ReadDataChannel *)
+| RFire (h : option nat)         (* closed stored, onClose read the handler *)
+| RDone.                         (* returned; readLoopActive closed *)
+
+(* position of an OnOpen / OnClose registration *)
+Inductive rpc := GStart | GCheck | GDone.
+
+Record config := {
+  detach : bool;             (* SettingEngine.DetachDataChannels() *)
+  prereg : bool;             (* OnOpen / OnClose (handler id 0) registered before anything runs *)
+  closer_kinds : list bool;  (* true = GracefulClose *)
+  n_reg_open : nat;
+  n_reg_close : nat
+}.
+
+(* handler bookkeeping of one event kind *)
+Record ev := {
+  handler : option nat;      (* d.onXHandler: id of the registration that set it *)
+  shared_fired : bool;       (* pre fix_once: the one d.xHandlerOnce, reset by every registration *)
+  fired : nat -> bool;       (* post fix_once: the Once created by registration k *)
+  calls : nat -> nat;        (* ghost: invocations of the handler of registration k *)
+  pend : list nat            (* spawned "go once.Do(handler k)" goroutines not yet run *)
+}.
 
 Record st := {
-  rs : rstate;               (* d.readyState (atomic.Value) *)
+  rs : rstate;               (* d.readyState *)
   hist : list rstate;        (* ghost: every value stored, oldest first (after the initial connecting) *)
   graceful : bool;           (* d.isGracefulClosed *)
   have_dc : bool;            (* d.dataChannel != nil *)
   dc_closed : bool;          (* ghost: the underlying pion/datachannel was closed locally *)
-  rl_started : bool;         (* handleOpen started readLoop *)
+  rl_started : bool;         (* d.readLoopActive != nil *)
   gone : bool;               (* the transport is gone or the remote closed: the read fails *)
-  open_fired : bool;         (* openHandlerOnce done *)
-  close_fired : bool;        (* closeHandlerOnce done *)
-  open_calls : nat;          (* invocations of the registered OnOpen handler *)
-  close_calls : nat;         (* invocations of the registered OnClose handler *)
+  in_list : bool;            (* still in sctpTransport.dataChannels *)
+  evo : ev;                  (* OnOpen *)
+  evc : ev;                  (* OnClose *)
   o_pc : opc;
   pc_done : bool;
   rem_done : bool;
-  rl_done : bool;
-  closers : list cpc
+  rl_pc : rlpc;
+  closers : list (bool * cpc);
+  regs_o : list rpc;
+  regs_c : list rpc
 }.
 
-Definition init (nclose : nat) : st :=
+Definition ev_init (pre_registered : bool) : ev :=
+  {| handler := if pre_registered then Some 0 else None; shared_fired := false;
+     fired := fun _ => false; calls := fun _ => 0; pend := [] |}.
+
+Definition init (c : config) : st :=
   {| rs := Connecting; hist := []; graceful := false; have_dc := false; dc_closed := false;
-     rl_started := false; gone := false; open_fired := false; close_fired := false;
-     open_calls := 0; close_calls := 0; o_pc := OStart; pc_done := false; rem_done := false;
-     rl_done := false; closers := repeat CStart nclose |}.
+     rl_started := false; gone := false; in_list := true;
+     evo := ev_init (prereg c); evc := ev_init (prereg c);
+     o_pc := OStart; pc_done := false; rem_done := false; rl_pc := RRun;
+     closers := map (fun g => (g, CStart)) (closer_kinds c);
+     regs_o := repeat GStart (n_reg_open c); regs_c := repeat GStart (n_reg_close c) |}.
 
 Fixpoint set_nth {A} (i : nat) (x : A) (l : list A) {struct l} : list A :=
   match l, i with
@@ -60,134 +121,283 @@ Fixpoint set_nth {A} (i : nat) (x : A) (l : list A) {struct l} : list A :=
   | a :: t, S j => a :: set_nth j x t
   end.
 
-(* setReadyState *)
-Definition store (s : st) (r : rstate) : st :=
-  {| rs := r; hist := hist s ++ [r]; graceful := graceful s; have_dc := have_dc s;
-     dc_closed := dc_closed s; rl_started := rl_started s; gone := gone s;
-     open_fired := open_fired s; close_fired := close_fired s;
-     open_calls := open_calls s; close_calls := close_calls s; o_pc := o_pc s;
-     pc_done := pc_done s; rem_done := rem_done s; rl_done := rl_done s; closers := closers s |}.
+Fixpoint remove_nth {A} (i : nat) (l : list A) {struct l} : list A :=
+  match l, i with
+  | [], _ => []
+  | _ :: t, O => t
+  | a :: t, S j => a :: remove_nth j t
+  end.
 
-(* onOpen(): handler read under RLock; skipped when isGracefulClosed; go openHandlerOnce.Do *)
-Definition fire_open (s : st) : st :=
-  if graceful s || open_fired s then s else
-  {| rs := rs s; hist := hist s; graceful := graceful s; have_dc := have_dc s;
-     dc_closed := dc_closed s; rl_started := rl_started s; gone := gone s;
-     open_fired := true; close_fired := close_fired s;
-     open_calls := S (open_calls s); close_calls := close_calls s; o_pc := o_pc s;
-     pc_done := pc_done s; rem_done := rem_done s; rl_done := rl_done s; closers := closers s |}.
-
-(* onClose(): go closeHandlerOnce.Do(handler) *)
-Definition fire_close (s : st) : st :=
-  if close_fired s then s else
-  {| rs := rs s; hist := hist s; graceful := graceful s; have_dc := have_dc s;
-     dc_closed := dc_closed s; rl_started := rl_started s; gone := gone s;
-     open_fired := open_fired s; close_fired := true;
-     open_calls := open_calls s; close_calls := S (close_calls s); o_pc := o_pc s;
-     pc_done := pc_done s; rem_done := rem_done s; rl_done := rl_done s; closers := closers s |}.
-
-Definition upd (s : st) (g h dcc rls gn : bool) (o : opc) (pcd remd rld : bool) (cl : list cpc) : st :=
+(* ---------- field updates ---------- *)
+Definition set_rs (s : st) (r : rstate) (h : list rstate) : st :=
+  {| rs := r; hist := h; graceful := graceful s; have_dc := have_dc s; dc_closed := dc_closed s;
+     rl_started := rl_started s; gone := gone s; in_list := in_list s; evo := evo s; evc := evc s;
+     o_pc := o_pc s; pc_done := pc_done s; rem_done := rem_done s; rl_pc := rl_pc s;
+     closers := closers s; regs_o := regs_o s; regs_c := regs_c s |}.
+Definition set_flags (s : st) (g h dcc rls gn il : bool) : st :=
   {| rs := rs s; hist := hist s; graceful := g; have_dc := h; dc_closed := dcc;
-     rl_started := rls; gone := gn; open_fired := open_fired s; close_fired := close_fired s;
-     open_calls := open_calls s; close_calls := close_calls s; o_pc := o;
-     pc_done := pcd; rem_done := remd; rl_done := rld; closers := cl |}.
+     rl_started := rls; gone := gn; in_list := il; evo := evo s; evc := evc s;
+     o_pc := o_pc s; pc_done := pc_done s; rem_done := rem_done s; rl_pc := rl_pc s;
+     closers := closers s; regs_o := regs_o s; regs_c := regs_c s |}.
+Definition set_evo (s : st) (e : ev) : st :=
+  {| rs := rs s; hist := hist s; graceful := graceful s; have_dc := have_dc s; dc_closed := dc_closed s;
+     rl_started := rl_started s; gone := gone s; in_list := in_list s; evo := e; evc := evc s;
+     o_pc := o_pc s; pc_done := pc_done s; rem_done := rem_done s; rl_pc := rl_pc s;
+     closers := closers s; regs_o := regs_o s; regs_c := regs_c s |}.
+Definition set_evc (s : st) (e : ev) : st :=
+  {| rs := rs s; hist := hist s; graceful := graceful s; have_dc := have_dc s; dc_closed := dc_closed s;
+     rl_started := rl_started s; gone := gone s; in_list := in_list s; evo := evo s; evc := e;
+     o_pc := o_pc s; pc_done := pc_done s; rem_done := rem_done s; rl_pc := rl_pc s;
+     closers := closers s; regs_o := regs_o s; regs_c := regs_c s |}.
+Definition set_pcs (s : st) (o : opc) (pcd remd : bool) (rl : rlpc)
+    (cl : list (bool * cpc)) (ro rc : list rpc) : st :=
+  {| rs := rs s; hist := hist s; graceful := graceful s; have_dc := have_dc s; dc_closed := dc_closed s;
+     rl_started := rl_started s; gone := gone s; in_list := in_list s; evo := evo s; evc := evc s;
+     o_pc := o; pc_done := pcd; rem_done := remd; rl_pc := rl;
+     closers := cl; regs_o := ro; regs_c := rc |}.
+
+Definition set_graceful (s : st) : st :=
+  set_flags s true (have_dc s) (dc_closed s) (rl_started s) (gone s) (in_list s).
+Definition set_have_dc (s : st) : st :=
+  set_flags s (graceful s) true (dc_closed s) (rl_started s) (gone s) (in_list s).
+Definition set_dc_closed (s : st) : st :=
+  set_flags s (graceful s) (have_dc s) true (rl_started s) (gone s) (in_list s).
+Definition set_rl_started (s : st) : st :=
+  set_flags s (graceful s) (have_dc s) (dc_closed s) true (gone s) (in_list s).
+Definition set_gone (s : st) : st :=
+  set_flags s (graceful s) (have_dc s) (dc_closed s) (rl_started s) true (in_list s).
+Definition set_unlisted (s : st) : st :=
+  set_flags s (graceful s) (have_dc s) (dc_closed s) (rl_started s) (gone s) false.
 
 Definition set_opc (s : st) (o : opc) : st :=
-  upd s (graceful s) (have_dc s) (dc_closed s) (rl_started s) (gone s) o (pc_done s) (rem_done s) (rl_done s) (closers s).
-Definition set_closers (s : st) (cl : list cpc) : st :=
-  upd s (graceful s) (have_dc s) (dc_closed s) (rl_started s) (gone s) (o_pc s) (pc_done s) (rem_done s) (rl_done s) cl.
+  set_pcs s o (pc_done s) (rem_done s) (rl_pc s) (closers s) (regs_o s) (regs_c s).
+Definition set_pc_done (s : st) : st :=
+  set_pcs s (o_pc s) true (rem_done s) (rl_pc s) (closers s) (regs_o s) (regs_c s).
+Definition set_rem_done (s : st) : st :=
+  set_pcs s (o_pc s) (pc_done s) true (rl_pc s) (closers s) (regs_o s) (regs_c s).
+Definition set_rlpc (s : st) (r : rlpc) : st :=
+  set_pcs s (o_pc s) (pc_done s) (rem_done s) r (closers s) (regs_o s) (regs_c s).
+Definition set_closers (s : st) (cl : list (bool * cpc)) : st :=
+  set_pcs s (o_pc s) (pc_done s) (rem_done s) (rl_pc s) cl (regs_o s) (regs_c s).
+Definition set_regs_o (s : st) (l : list rpc) : st :=
+  set_pcs s (o_pc s) (pc_done s) (rem_done s) (rl_pc s) (closers s) l (regs_c s).
+Definition set_regs_c (s : st) (l : list rpc) : st :=
+  set_pcs s (o_pc s) (pc_done s) (rem_done s) (rl_pc s) (closers s) (regs_o s) l.
+
+(* ---------- setReadyState ---------- *)
+(* post: a store that is not a move forward is dropped *)
+Definition dropped (v : variant) (s : st) (r : rstate) : bool :=
+  fix_state v && Nat.leb (rank r) (rank (rs s)).
+Definition store (v : variant) (s : st) (r : rstate) : st :=
+  set_rs s (if dropped v s r then rs s else r)
+           (if dropped v s r then hist s else hist s ++ [r]).
+
+(* ---------- the handler Onces ---------- *)
+(* OnX(f), first block: lock; the Once (pre: reset the shared one; post: a new
+   one for this registration); d.onXHandler = f; unlock *)
+Definition ev_register (v : variant) (e : ev) (k : nat) : ev :=
+  {| handler := Some k; shared_fired := if fix_once v then shared_fired e else false;
+     fired := fired e; calls := calls e; pend := pend e |}.
+
+(* "go once.Do(handler k)": the goroutine exists, it has not run yet *)
+Definition ev_spawn (e : ev) (h : option nat) : ev :=
+  match h with
+  | None => e                              (* if handler != nil *)
+  | Some k => {| handler := handler e; shared_fired := shared_fired e; fired := fired e;
+                 calls := calls e; pend := pend e ++ [k] |}
+  end.
+
+Definition upd {A} (f : nat -> A) (k : nat) (x : A) : nat -> A :=
+  fun i => if Nat.eqb i k then x else f i.
+
+(* once.Do(handler k) runs: post on the Once of registration k, pre on
+   whatever d.xHandlerOnce is at that moment *)
+Definition ev_do (v : variant) (e : ev) (i : nat) : option ev :=
+  match nth_error (pend e) i with
+  | None => None
+  | Some k =>
+      let already := if fix_once v then fired e k else shared_fired e in
+      if already then
+        Some {| handler := handler e; shared_fired := shared_fired e; fired := fired e;
+                calls := calls e; pend := remove_nth i (pend e) |}
+      else
+        Some {| handler := handler e;
+                shared_fired := if fix_once v then shared_fired e else true;
+                fired := if fix_once v then upd (fired e) k true else fired e;
+                calls := upd (calls e) k (S (calls e k));
+                pend := remove_nth i (pend e) |}
+  end.
+
+(* onClose(), first half: RLock; handler := d.onCloseHandler; RUnlock *)
+Definition read_close (s : st) : option nat := handler (evc s).
 
 (* ---------- handleOpen ---------- *)
-Definition open_step (s : st) : option st :=
+(* the end of handleOpen: lock; if isGracefulClosed ...; start the read loop *)
+Definition open_tail (v : variant) (c : config) (s : st) : st :=
+  if graceful s then
+    if fix_state v then
+      (* closed while opening: unlock; dc.Close(); setReadyState(closed); onClose() *)
+      let s1 := store v (set_dc_closed s) Closed in
+      set_opc s1 (OFireClose (read_close s1))
+    else set_opc s ODone                    (* return: no read loop *)
+  else
+    (* if !detach { readLoopActive = make(chan); go readLoop() } *)
+    set_opc (if detach c then s else set_rl_started s) ODone.
+
+Definition open_step (v : variant) (c : config) (s : st) : option st :=
   match o_pc s with
   | OStart =>
-      (* lock; if isGracefulClosed { unlock; dc.Close(); onClose(); return } *)
+      (* lock; if isGracefulClosed { unlock; dc.Close(); [setReadyState(closed);] onClose() } *)
       if graceful s then
-        Some (fire_close (upd s (graceful s) (have_dc s) true (rl_started s) (gone s) ODone
-                            (pc_done s) (rem_done s) (rl_done s) (closers s)))
+        let s1 := set_dc_closed s in
+        let s2 := if fix_state v then store v s1 Closed else s1 in
+        Some (set_opc s2 (OFireClose (read_close s2)))
       else (* d.dataChannel = dc; unlock *)
-        Some (upd s (graceful s) true (dc_closed s) (rl_started s) (gone s) OSetOpen
-                (pc_done s) (rem_done s) (rl_done s) (closers s))
+        Some (set_opc (set_have_dc s) OSetOpen)
   | OSetOpen =>
-      (* setReadyState(open); onOpen(); lock; if isGracefulClosed return; go readLoop() *)
-      let s1 := fire_open (store s Open) in
-      Some (upd s1 (graceful s1) (have_dc s1) (dc_closed s1)
-              (if graceful s1 then rl_started s1 else true) (gone s1) ODone
-              (pc_done s1) (rem_done s1) (rl_done s1) (closers s1))
+      (* setReadyState(open); onOpen(): RLock; handler; if isGracefulClosed return *)
+      let s1 := store v s Open in
+      if graceful s1 then Some (open_tail v c s1)
+      else Some (set_opc s1 (OFireOpen (handler (evo s1))))
+  | OFireOpen h =>
+      (* if handler != nil { go openHandlerOnce.Do(...) }; then the end of handleOpen *)
+      Some (open_tail v c (set_evo s (ev_spawn (evo s) h)))
+  | OFireClose h =>
+      (* if handler != nil { go closeHandlerOnce.Do(handler) }; return *)
+      Some (set_opc (set_evc s (ev_spawn (evc s) h)) ODone)
   | ODone => None
   end.
 
-(* ---------- DataChannel.close(false) ---------- *)
-Definition close_step (s : st) (j : nat) : option st :=
+(* ---------- DataChannel.close(shouldGracefullyClose) ---------- *)
+Definition rl_done (s : st) : bool := match rl_pc s with RDone => true | _ => false end.
+
+Definition close_step (v : variant) (s : st) (j : nat) : option st :=
   match nth_error (closers s) j with
-  | Some CStart =>
-      (* lock; isGracefulClosed = true; haveSctpTransport := d.dataChannel != nil; unlock *)
-      Some (upd s true (have_dc s) (dc_closed s) (rl_started s) (gone s) (o_pc s)
-              (pc_done s) (rem_done s) (rl_done s) (set_nth j (CCheck (have_dc s)) (closers s)))
-  | Some (CCheck h) =>
+  | Some (g, CStart) =>
+      (* lock; isGracefulClosed = true; readLoopActive read (graceful: deferred wait
+         when it is not nil); haveSctpTransport := d.dataChannel != nil; unlock *)
+      Some (set_closers (set_graceful s)
+              (set_nth j (g, CCheck (have_dc s) (g && rl_started s)) (closers s)))
+  | Some (g, CCheck h w) =>
       (* if d.ReadyState() == closed { return nil } *)
-      if rstate_eqb (rs s) Closed then Some (set_closers s (set_nth j CDone (closers s)))
-      else Some (set_closers s (set_nth j (CSet h) (closers s)))
-  | Some (CSet h) =>
+      if rstate_eqb (rs s) Closed
+      then Some (set_closers s (set_nth j (g, if w then CWait else CDone) (closers s)))
+      else Some (set_closers s (set_nth j (g, CSet h w) (closers s)))
+  | Some (g, CSet h w) =>
       (* setReadyState(closing); if !haveSctpTransport return; d.dataChannel.Close() *)
-      let s1 := store s Closing in
-      Some (upd s1 (graceful s1) (have_dc s1) (if h then true else dc_closed s1) (rl_started s1) (gone s1)
-              (o_pc s1) (pc_done s1) (rem_done s1) (rl_done s1) (set_nth j CDone (closers s1)))
-  | Some CDone | None => None
+      let s1 := store v s Closing in
+      let s2 := if h then set_dc_closed s1 else s1 in
+      Some (set_closers s2 (set_nth j (g, if w then CWait else CDone) (closers s2)))
+  | Some (g, CWait) =>
+      (* <-readLoopActive *)
+      if rl_done s then Some (set_closers s (set_nth j (g, CDone) (closers s))) else None
+  | Some (_, CDone) | None => None
   end.
 
 (* ---------- PeerConnection.close: step 5, then the transports stop ---------- *)
-Definition pcclose_step (s : st) : option st :=
+Definition pcclose_step (v : variant) (s : st) : option st :=
   if pc_done s then None else
-  let s1 := store s Closed in
-  Some (upd s1 (graceful s1) (have_dc s1) (dc_closed s1) (rl_started s1) true (o_pc s1)
-          true (rem_done s1) (rl_done s1) (closers s1)).
+  let s1 := if in_list s then store v s Closed else s in
+  Some (set_pc_done (set_gone s1)).
 
-(* ---------- the remote side resets the stream ---------- *)
+(* ---------- the remote side resets the stream / goes away ---------- *)
 Definition remote_step (s : st) : option st :=
-  if rem_done s then None else
-  Some (upd s (graceful s) (have_dc s) (dc_closed s) (rl_started s) true (o_pc s)
-          (pc_done s) true (rl_done s) (closers s)).
+  if rem_done s then None else Some (set_rem_done (set_gone s)).
 
-(* ---------- readLoop: ReadDataChannel failed; setReadyState(closed); onClose() ---------- *)
-Definition rl_step (s : st) : option st :=
-  if rl_started s && gone s && negb (rl_done s) then
-    let s1 := fire_close (store s Closed) in
-    Some (upd s1 (graceful s1) (have_dc s1) (dc_closed s1) (rl_started s1) (gone s1) (o_pc s1)
-            (pc_done s1) (rem_done s1) true (closers s1))
-  else None.
-
-Definition step (s : st) (t : nat) : option st :=
-  match t with
-  | 0 => open_step s
-  | 1 => pcclose_step s
-  | 2 => remote_step s
-  | 3 => rl_step s
-  | S (S (S (S j))) => close_step s j
+(* ---------- readLoop: ReadDataChannel failed ---------- *)
+Definition rl_step (v : variant) (s : st) : option st :=
+  match rl_pc s with
+  | RRun =>
+      if rl_started s && gone s then
+        (* setReadyState(closed); onError; onClose(): handler read *)
+        let s1 := store v s Closed in
+        Some (set_rlpc s1 (RFire (read_close s1)))
+      else None
+  | RFire h =>
+      (* go closeHandlerOnce.Do(handler); return: close(readLoopActive) *)
+      Some (set_rlpc (set_evc s (ev_spawn (evc s) h)) RDone)
+  | RDone => None
   end.
 
-Fixpoint run (s : st) (sch : list nat) : st :=
+(* ---------- OnOpen(f) / OnClose(f) ---------- *)
+Definition reg_open_step (v : variant) (s : st) (i : nat) : option st :=
+  match nth_error (regs_o s) i with
+  | Some GStart =>
+      Some (set_regs_o (set_evo s (ev_register v (evo s) (S i))) (set_nth i GCheck (regs_o s)))
+  | Some GCheck =>
+      (* if d.ReadyState() == open { go once.Do(f) } *)
+      let e := if rstate_eqb (rs s) Open then ev_spawn (evo s) (Some (S i)) else evo s in
+      Some (set_regs_o (set_evo s e) (set_nth i GDone (regs_o s)))
+  | Some GDone | None => None
+  end.
+
+Definition reg_close_step (v : variant) (s : st) (i : nat) : option st :=
+  match nth_error (regs_c s) i with
+  | Some GStart =>
+      Some (set_regs_c (set_evc s (ev_register v (evc s) (S i))) (set_nth i GCheck (regs_c s)))
+  | Some GCheck =>
+      (* if d.ReadyState() == closed { go once.Do(f) } *)
+      let e := if rstate_eqb (rs s) Closed then ev_spawn (evc s) (Some (S i)) else evc s in
+      Some (set_regs_c (set_evc s e) (set_nth i GDone (regs_c s)))
+  | Some GDone | None => None
+  end.
+
+(* ---------- Detach() ---------- *)
+Inductive detach_result := DetachNotEnabled | DetachBeforeOpened | DetachOk.
+Definition detach_call (c : config) (s : st) : detach_result :=
+  if negb (detach c) then DetachNotEnabled
+  else if negb (have_dc s) then DetachBeforeOpened else DetachOk.
+(* on success the channel is removed from sctpTransport.dataChannels *)
+Definition detach_step (c : config) (s : st) : option st :=
+  match detach_call c s with
+  | DetachOk => Some (set_unlisted s)
+  | _ => Some s
+  end.
+
+(* ---------- Send / SendText: ensureOpen, then the underlying channel ---------- *)
+Inductive send_result :=
+| SendClosedPipe      (* readyState is not open: io.ErrClosedPipe *)
+| SendNilChannel      (* open with d.dataChannel == nil: nil dereference *)
+| SendStreamClosed    (* the underlying channel was closed locally: it refuses *)
+| SendTransport       (* the transport is gone: whatever the association says *)
+| SendWritten.
+Definition send (s : st) : send_result :=
+  if negb (rstate_eqb (rs s) Open) then SendClosedPipe
+  else if negb (have_dc s) then SendNilChannel
+  else if gone s then SendTransport
+  else if dc_closed s then SendStreamClosed
+  else SendWritten.
+
+(* ---------- the schedule ---------- *)
+Inductive tid :=
+| TOpen | TPc | TRem | TRl
+| TClose (j : nat)
+| TRegO (i : nat) | TRegC (i : nat)
+| TDoO (i : nat) | TDoC (i : nat)
+| TDetach | TSend.
+
+Definition step (v : variant) (c : config) (s : st) (t : tid) : option st :=
+  match t with
+  | TOpen => open_step v c s
+  | TPc => pcclose_step v s
+  | TRem => remote_step s
+  | TRl => rl_step v s
+  | TClose j => close_step v s j
+  | TRegO i => reg_open_step v s i
+  | TRegC i => reg_close_step v s i
+  | TDoO i => match ev_do v (evo s) i with Some e => Some (set_evo s e) | None => None end
+  | TDoC i => match ev_do v (evc s) i with Some e => Some (set_evc s e) | None => None end
+  | TDetach => detach_step c s
+  | TSend => Some s
+  end.
+
+Fixpoint run (v : variant) (c : config) (s : st) (sch : list tid) : st :=
   match sch with
   | [] => s
-  | t :: rest => match step s t with
-                 | Some s' => run s' rest
-                 | None => run s rest
+  | t :: rest => match step v c s t with
+                 | Some s' => run v c s' rest
+                 | None => run v c s rest
                  end
-  end.
-
-(* also records which choices were enabled and the state after every enabled step *)
-Fixpoint run_trace (s : st) (sch : list nat) : st * list bool * list rstate :=
-  match sch with
-  | [] => (s, [], [])
-  | t :: rest =>
-      match step s t with
-      | Some s' => match run_trace s' rest with
-                   | (f, fl, obs) => (f, true :: fl, rs s' :: obs)
-                   end
-      | None => match run_trace s rest with
-                | (f, fl, obs) => (f, false :: fl, obs)
-                end
-      end
   end.
 
 (* readyState only moves forward *)
@@ -198,38 +408,10 @@ Fixpoint monotone_from (r : rstate) (l : list rstate) : bool :=
   end.
 Definition monotone (s : st) : bool := monotone_from Connecting (hist s).
 
-(* Send / SendText: ensureOpen *)
-Inductive send_result := SendClosedPipe | SendWritten.
-Definition send (s : st) : send_result :=
-  if rstate_eqb (rs s) Open then SendWritten (* handed to the underlying channel *) else SendClosedPipe.
-
-(* ---------- the same with the two check-then-set windows atomic and
-   handleOpen not after PeerConnection.Close (the guard of c20_monotone_partial) ---------- *)
-Definition in_window (s : st) (t : nat) : bool :=
-  match t with
-  | 0 => match o_pc s with OSetOpen => true | _ => false end
-  | S (S (S (S j))) => match nth_error (closers s) j with Some (CSet _) => true | _ => false end
-  | _ => false
-  end.
-
-Definition stepA (s : st) (t : nat) : option st :=
-  match t with
-  | 0 => if pc_done s then None else
-         match step s 0 with
-         | Some s' => if in_window s' 0 then step s' 0 else Some s'
-         | None => None
-         end
-  | _ => match step s t with
-         | Some s' => if in_window s' t then step s' t else Some s'
-         | None => None
-         end
-  end.
-
-Fixpoint runA (s : st) (sch : list nat) : st :=
-  match sch with
-  | [] => s
-  | t :: rest => match stepA s t with
-                 | Some s' => runA s' rest
-                 | None => runA s rest
-                 end
-  end.
+(* every thread of the channel itself has come to rest: handleOpen returned,
+   no Close call is under way, the read loop has nothing to do *)
+Definition cdone (x : bool * cpc) : bool := match snd x with CDone => true | _ => false end.
+Definition at_rest (v : variant) (s : st) : bool :=
+  match o_pc s with ODone => true | _ => false end
+  && forallb cdone (closers s)
+  && match rl_step v s with None => true | Some _ => false end.
